@@ -19,6 +19,8 @@ TRANSLATORS = [
     ('gen_case2', ['CaseTabs2.v']),
     ('gen_sites', ['SiteInv.v']),
     ('gen_frontends', ['Frontends.v']),
+    ('gen_state', ['StateInv.v']),
+    ('gen_split_regex', ['SplitRx.v']),
 ]
 
 
